@@ -3,9 +3,13 @@
     findTransactionByBottomID / buildShadowReq / buildTopRsp, with the component's real
     Top and Bottom ports as bounded FIFOs and the sequential ID generator as a counter.
 
-    No control traffic: the ROB stays Enabled and processControlMsg finds the Control port
-    empty.  Only AccessReq messages are delivered to Top (anything else panics in topDown).
-    Ghost fields (never read by the model functions): [t_parsed], [g_acc], [g_rel], [g_shadow]. *)
+    The Control port and processControlMsg (Pause / Drain / Enable / Reset / unsupported verbs,
+    completePendingDrain) are modelled too, and a checkpoint round trip of the component
+    (modeling.Component SaveCheckpoint / LoadCheckpoint: the State goes through JSON, the ports
+    are not part of it) can be taken at any instant.
+    Only AccessReq messages are delivered to Top (anything else panics in topDown).
+    Ghost fields (never read by the model functions): [t_parsed], [g_acc], [g_rel], [g_shadow].
+    [g_acc] lists the accepted requests that were not discarded by a Reset. *)
 From Akita Require Import Lib.Base.
 Local Open Scope N_scope.
 
@@ -39,6 +43,11 @@ Inductive trsp :=
 | TData (id dst rspto : N) (data : list N) (tb : Z)
 | TDone (id dst rspto : N) (tb : Z).
 
+(** Control port: a memcontrolprotocol.Req (command 0 Pause, 1 Drain, 2 Enable, 3 Reset, others
+    unsupported by the ROB) or any other message type; and the responses. *)
+Inductive cmsg := CReq (id src cmd : N) | COther.
+Record crsp := mk_crsp { cr_id : N; cr_dst : N; cr_rspto : N; cr_cmd : N; cr_ok : bool }.
+
 Record trans := mk_trans {
   t_top_id : N; t_top_src : N; t_bot_id : N; t_is_read : bool; t_has : bool; t_data : list N;
   t_parsed : list brsp          (* ghost: the bottom responses recorded on this transaction *) }.
@@ -51,12 +60,21 @@ Record rob := mk_rob {
   r_trans : list trans;         (* State.Transactions *)
   r_top_in : list req; r_top_out : list trsp;
   r_bot_in : list brsp; r_bot_out : list sreq;
-  g_acc : list (req * N);       (* ghost: accepted requests with their shadow id, in order *)
+  g_acc : list (req * N);       (* ghost: accepted (and not reset-away) requests with their shadow id, in order *)
   g_rel : list (trsp * trans);  (* ghost: released responses with the transaction they retire *)
-  g_shadow : list sreq          (* ghost: every shadow request sent *) }.
+  g_shadow : list sreq;         (* ghost: every shadow request sent *)
+  r_cstate : N;                 (* State.ControlState: 0 Enabled, 2 Paused, 3 Draining *)
+  r_cmd_id : N; r_cmd_src : N;  (* State.CurrentCmdID / CurrentCmdSrc (0 = "") *)
+  r_ctl_in : list cmsg; r_ctl_out : list crsp; r_ctl_cap : N }.
 
 Definition upd_ports (r : rob) id tr ti to bi bo acc rel sh : rob :=
-  mk_rob (r_size r) (r_width r) (r_top_cap r) (r_bot_cap r) id tr ti to bi bo acc rel sh.
+  mk_rob (r_size r) (r_width r) (r_top_cap r) (r_bot_cap r) id tr ti to bi bo acc rel sh
+         (r_cstate r) (r_cmd_id r) (r_cmd_src r) (r_ctl_in r) (r_ctl_out r) (r_ctl_cap r).
+
+(** the control fields and the ID counter *)
+Definition upd_ctl (r : rob) id cs cid csrc cin cout : rob :=
+  mk_rob (r_size r) (r_width r) (r_top_cap r) (r_bot_cap r) id (r_trans r) (r_top_in r) (r_top_out r)
+         (r_bot_in r) (r_bot_out r) (g_acc r) (g_rel r) (g_shadow r) cs cid csrc cin cout (r_ctl_cap r).
 
 Definition shadow_of (q : req) (id : N) : sreq :=
   match q with
@@ -109,6 +127,7 @@ Definition parse_bottom (r : rob) : bool * rob :=
 
 (** topDown: the shadow ID is generated before the CanSend check on Bottom. *)
 Definition top_down (r : rob) : bool * rob :=
+  if negb (r_cstate r =? 0) then (false, r) else
   match r_top_in r with
   | [] => (false, r)
   | q :: rest =>
@@ -135,17 +154,66 @@ Fixpoint stage_loop (f : rob -> bool * rob) (n : nat) (r : rob) : bool * rob :=
       if ok then let '(_, r2) := stage_loop f k r1 in (true, r2) else (false, r1)
   end.
 
-(** Tick (Enabled, empty Control port) = runPipeline *)
-Definition tick (r : rob) : bool * rob :=
+(** processControlMsg.  makeCtrlRsp (and with it the ID) is only reached after the CanSend check. *)
+Definition ctl_can_send (r : rob) : bool := N.of_nat (length (r_ctl_out r)) <? r_ctl_cap r.
+
+Definition ctl_reply (r : rob) (cs : N) (dst rspto cmd : N) (ok : bool) (rest : list cmsg) : rob :=
+  upd_ctl r (r_next_id r + 1) cs (r_cmd_id r) (r_cmd_src r) rest
+          (r_ctl_out r ++ [mk_crsp (r_next_id r) dst rspto cmd ok]).
+
+Definition process_control (r : rob) : bool * rob :=
+  if r_cstate r =? 3 then
+    (* completePendingDrain; while Draining no further command is dequeued *)
+    match r_trans r with
+    | [] => if ctl_can_send r
+            then (true, ctl_reply r 2 (r_cmd_src r) (r_cmd_id r) 1 true (r_ctl_in r))
+            else (false, r)
+    | _ => (false, r)
+    end
+  else
+    match r_ctl_in r with
+    | [] => (false, r)
+    | COther :: rest => (true, upd_ctl r (r_next_id r) (r_cstate r) (r_cmd_id r) (r_cmd_src r) rest (r_ctl_out r))
+    | CReq id src cmd :: rest =>
+        if cmd =? 1 then                                      (* Drain: acknowledged on completion *)
+          (true, upd_ctl r (r_next_id r) 3 id src rest (r_ctl_out r))
+        else if negb (ctl_can_send r) then (false, r)
+        else if cmd =? 0 then (true, ctl_reply r 2 src id 0 true rest)             (* Pause *)
+        else if cmd =? 2 then (true, ctl_reply r 0 src id 2 true rest)             (* Enable *)
+        else if cmd =? 3 then                                                      (* Reset *)
+          (* the table is emptied, the Top and Bottom incoming buffers are drained; the requests
+             accepted but not yet answered are forgotten *)
+          (true, mk_rob (r_size r) (r_width r) (r_top_cap r) (r_bot_cap r) (r_next_id r + 1) [] [] (r_top_out r)
+                        [] (r_bot_out r) (firstn (length (g_rel r)) (g_acc r)) (g_rel r) (g_shadow r)
+                        0 0 0 rest (r_ctl_out r ++ [mk_crsp (r_next_id r) src id 3 true]) (r_ctl_cap r))
+        else (true, ctl_reply r (r_cstate r) src id cmd false rest)                (* unsupported *)
+    end.
+
+(** Tick: the control port first; the pipeline runs while Enabled or Draining *)
+Definition pipeline (r : rob) : bool * rob :=
   let w := Z.to_nat (r_width r) in
   let '(p1, r1) := stage_loop bottom_up w r in
   let '(p2, r2) := stage_loop parse_bottom w r1 in
   let '(p3, r3) := stage_loop top_down w r2 in
   (p1 || p2 || p3, r3).
 
-(** One scripted instant: deliveries (those that fit), tick, drains. *)
+Definition tick (r : rob) : bool * rob :=
+  let '(p0, r0) := process_control r in
+  if (r_cstate r0 =? 0) || (r_cstate r0 =? 3)
+  then let '(p, r1) := pipeline r0 in (p0 || p, r1)
+  else (p0, r0).
+
+(** One scripted instant: optional checkpoint round trip, deliveries (those that fit), tick, drains. *)
 Record instant := mk_instant {
-  i_top : list req; i_bot : list brsp; i_drain_top : nat; i_drain_bot : nat }.
+  i_ckpt : bool;
+  i_top : list req; i_bot : list brsp; i_ctl : list cmsg;
+  i_drain_top : nat; i_drain_bot : nat; i_drain_ctl : nat }.
+
+(** Component.SaveCheckpoint followed by LoadCheckpoint: the State (transaction table, control
+    state, current command) is marshalled to JSON and unmarshalled back; for the fields of the
+    model this is the identity (an absent/empty RspData and an empty table decode as empty).
+    The ports and the ID generator are not part of the component checkpoint. *)
+Definition ckpt_roundtrip (r : rob) : rob := r.
 
 Definition deliver_top (r : rob) (qs : list req) : rob :=
   fold_left (fun r q => if N.of_nat (length (r_top_in r)) <? r_top_cap r
@@ -159,19 +227,30 @@ Definition deliver_bot (r : rob) (bs : list brsp) : rob :=
                                        (g_acc r) (g_rel r) (g_shadow r)
                         else r) bs r.
 
+Definition deliver_ctl (r : rob) (cs : list cmsg) : rob :=
+  fold_left (fun r c => if N.of_nat (length (r_ctl_in r)) <? r_ctl_cap r
+                        then upd_ctl r (r_next_id r) (r_cstate r) (r_cmd_id r) (r_cmd_src r) (r_ctl_in r ++ [c]) (r_ctl_out r)
+                        else r) cs r.
+
 Record tick_obs := mk_tobs {
-  to_progress : bool; to_top : list trsp; to_bot : list sreq; to_ntrans : N;
-  to_ntop : nat; to_nbot : nat }.   (* how many of the scripted deliveries the ports took *)
+  to_progress : bool; to_top : list trsp; to_bot : list sreq; to_ctl : list crsp; to_ntrans : N; to_cstate : N;
+  to_ntop : nat; to_nbot : nat; to_nctl : nat }.   (* how many of the scripted deliveries the ports took *)
 
 Definition env_step (r : rob) (i : instant) : rob * tick_obs :=
-  let ra := deliver_top r (i_top i) in
-  let r0 := deliver_bot ra (i_bot i) in
+  let rk := if i_ckpt i then ckpt_roundtrip r else r in
+  let ra := deliver_top rk (i_top i) in
+  let rb := deliver_bot ra (i_bot i) in
+  let r0 := deliver_ctl rb (i_ctl i) in
   let '(p, r1) := tick r0 in
-  let r2 := upd_ports r1 (r_next_id r1) (r_trans r1) (r_top_in r1) (skipn (i_drain_top i) (r_top_out r1))
-                      (r_bot_in r1) (skipn (i_drain_bot i) (r_bot_out r1)) (g_acc r1) (g_rel r1) (g_shadow r1) in
+  let r2 := mk_rob (r_size r1) (r_width r1) (r_top_cap r1) (r_bot_cap r1) (r_next_id r1) (r_trans r1) (r_top_in r1)
+                   (skipn (i_drain_top i) (r_top_out r1)) (r_bot_in r1) (skipn (i_drain_bot i) (r_bot_out r1))
+                   (g_acc r1) (g_rel r1) (g_shadow r1) (r_cstate r1) (r_cmd_id r1) (r_cmd_src r1) (r_ctl_in r1)
+                   (skipn (i_drain_ctl i) (r_ctl_out r1)) (r_ctl_cap r1) in
   (r2, mk_tobs p (firstn (i_drain_top i) (r_top_out r1)) (firstn (i_drain_bot i) (r_bot_out r1))
-               (N.of_nat (length (r_trans r1)))
-               (length (r_top_in ra) - length (r_top_in r)) (length (r_bot_in r0) - length (r_bot_in ra))).
+               (firstn (i_drain_ctl i) (r_ctl_out r1))
+               (N.of_nat (length (r_trans r1))) (r_cstate r1)
+               (length (r_top_in ra) - length (r_top_in rk)) (length (r_bot_in rb) - length (r_bot_in ra))
+               (length (r_ctl_in r0) - length (r_ctl_in rb))).
 
 Fixpoint env_run (r : rob) (s : list instant) : rob * list tick_obs :=
   match s with
@@ -179,5 +258,5 @@ Fixpoint env_run (r : rob) (s : list instant) : rob * list tick_obs :=
   | i :: rest => let '(r1, ob) := env_step r i in let '(r2, obs) := env_run r1 rest in (r2, ob :: obs)
   end.
 
-Definition rob_init (size width : Z) (tcap bcap : N) : rob :=
-  mk_rob size width tcap bcap 0 [] [] [] [] [] [] [] [].
+Definition rob_init (size width : Z) (tcap bcap ccap : N) : rob :=
+  mk_rob size width tcap bcap 0 [] [] [] [] [] [] [] [] 0 0 0 [] [] ccap.
